@@ -41,6 +41,8 @@ def gen_scenarios(seed, tier):
             yield gen_nested(rng, i)
         elif i % 12 == 1:
             yield gen_blocking(rng, i)
+        elif i % 12 == 7:
+            yield gen_blocking_nested(rng, i)
         else:
             d = sc.gen_stack(rng, i, ops=("submit", "cancel", "addcb", "result", "shutdown", "sleep"), tail=(20.0,), shutdown_p=0.12)
             for lay in d["layers"]:
@@ -65,12 +67,31 @@ def gen_blocking(rng, i):
     return d
 
 
-def retry_over_blocking_throttle(desc):
-    kinds = [(l[0], bool(l[1].get("block"))) for l in desc["layers"]]
-    for i, (k, b) in enumerate(kinds):
-        if k == "throttle" and b and any(k2 == "retry" for (k2, _) in kinds[i + 1:]):
-            return True
-    return False
+def gen_blocking_nested(rng, i):
+    """a ThrottleExecutor in blocking mode with a small count, more submitters than room, and done-callbacks that submit to the
+    same executor: with an inline (or quick) delegate those callbacks run on the hand-over thread itself - the only thread that
+    can make room for a submitter parked inside submit()"""
+    layers = [["throttle", {"count": rng.choice([1, 1, 2]), "block": True}]]
+    if rng.random() < 0.3:
+        layers.append(sc.gen_layer(rng, rng.choice(["map", "timeout", "cancel_on_shutdown"])))
+    if rng.random() < 0.3:
+        layers.insert(0, sc.gen_layer(rng, rng.choice(["map", "flat_map"])))
+    clients = []
+    k = 0
+    for c in range(rng.choice([2, 3, 3])):
+        ops = []
+        for _ in range(rng.randint(2, 3)):
+            beh = [["ret", k]] if rng.random() < 0.7 else [["sleep", 0.5], ["ret", k]]
+            ops.append(["submit", "k%d" % k, [beh]])
+            if rng.random() < 0.5:
+                ops.append(["addcb", "k%d" % k, "submit"])
+            k += 1
+        clients.append(ops)
+    d = dict(kind="stack", idx=i, family="blocking-nested", base=rng.choice(["simsync", "libsync", "simpool1", "simpool2"]),
+             layers=layers, clients=clients, tail=40.0, seed=rng.randrange(1 << 30))
+    from props.common import schedule_modes
+    d.update(schedule_modes(rng))
+    return d
 
 
 def gen_nested(rng, i):
@@ -110,32 +131,65 @@ def run_one(desc):
     hits += [h for h in out.get("C11", []) if h["sig"].startswith("C11/shutdown-never-returns:lock")]
     inline_base = desc["base"] in ("libsync", "simsync")
     has_retry = any(l[0] == "retry" for l in desc["layers"])
-    nested_running = any(e[1] == "call" and e[2] == "nsubmit" for e in s.log)
-    if inline_base and has_retry and nested_running:
-        # the retry submit thread runs the callable inline (synchronous delegate) while holding the future's and the executor's
-        # lock; a submit issued from that callable, racing with another submitter, closes a cycle through those locks
+    # threads that are inside a nested submit (a submit issued from a callable / map function / done-callback) at the end
+    pend = {}
+    cb_sub = {}
+    for e in s.log:
+        if e[1] == "call" and e[2] == "nsubmit":
+            pend[e[0]] = e[3]
+        elif e[1] in ("ret", "raise") and e[2] == "nsubmit":
+            pend.pop(e[0], None)
+        elif e[1] == "call" and e[2] == "submit" and str(e[3]).startswith("nested"):
+            # a submit issued by a done-callback (scenario callbacks of kind "submit")
+            cb_sub[e[0]] = "done-callback %s" % e[3]
+            pend[e[0]] = cb_sub[e[0]]
+        elif e[1] in ("ret", "raise") and e[2] == "submit" and e[0] in cb_sub:
+            cb_sub.pop(e[0], None)
+            pend.pop(e[0], None)
+    parked = list(s.parked()) if s.end_reason in ("idle", "limit") else []
+    # the known finding needs exactly this: the RETRY SUBMIT THREAD itself is stuck on a lock inside a nested submit - it runs
+    # the callable inline (synchronous delegate) inside `_submit_now` while holding the retry future's lock, and the lock it
+    # waits for (an outer gate) is held by a client thread that in turn needs that future's lock (add_done_callback on it)
+    retry_thread_in_nested = any(tid in pend and park and park[0] == "lock" and role == "lib" and str(name).startswith("RetryExecutor")
+                                 for (tid, park, role, name) in parked)
+    if inline_base and has_retry and retry_thread_in_nested:
         for h in hits:
             if h["sig"] == "C04/deadlock:lock-wait":
                 h["sig"] = "C04/deadlock:nested-submit:retry-over-inline-delegate"
-    if retry_over_blocking_throttle(desc):
-        # the retry submit thread is parked in the blocking throttle's submit() holding the retry executor's lock; the throttle's
-        # hand-over thread, which alone can make room, finds the delegate future already done (inline delegate, or a pool that was
-        # quicker) and so runs the retry layer's done-callback itself, which needs that lock
-        for h in hits:
-            if h["sig"] == "C04/deadlock:lock-wait":
-                h["sig"] = "C04/deadlock:retry-over-blocking-throttle"
-    # client threads stuck for ever inside a nested submit
+    # threads stuck for ever inside a nested submit: on a lock (idle-final), or re-arming a timed wait without end (virtual time
+    # runs away from one fall-back time-out to the next: the run ends at the idle-jump limit)
+    if s.end_reason == "limit" and not ctx.completed and getattr(s, "njumps", 0) > 4000:
+        for (tid, park, role, name) in parked:
+            if tid in pend and park and park[0] in ("cond", "event") and role == "lib" and str(name).startswith("ThrottleExecutor"):
+                # the blocking throttle's own hand-over thread (running a done-callback that submits) waits for room that only it
+                # can make.  Any OTHER thread sleeping in a blocking submit() while the queue is full is doing what block=True
+                # specifies (C07); whether capacity is ever freed is then up to the program (a bounded buffer whose producer runs
+                # on the consumer's only thread) - not reported here; sleeping although there IS room is C07/blocked-with-room
+                hits.append(hit("C04/nested-submit-blocks:self-wait", "a submit() issued from inside %s on the hand-over thread %s waits for "
+                                "ever on %s with time-out %s (layers %r, base %s)" % (pend[tid], name, park[1], park[2] if len(park) > 2 else None,
+                                                                                      [l[0] for l in desc["layers"]], desc["base"])))
+            elif tid in pend and park and park[0] == "lock":
+                sleepers = [(t2, p2, n2) for (t2, p2, _r2, n2) in parked if p2 and p2[0] in ("cond", "event") and len(p2) > 2 and p2[2]]
+                whose = "unknown-lock"
+                try:
+                    for (nm, ref) in s.names.values():
+                        if nm == park[1]:
+                            lk = ref()
+                            c = lockedges.classify(getattr(lk, "tag", None), ctx, desc)
+                            if c is not None:
+                                whose = "%s-%s" % (c[1], c[2])
+                                if c[1] != "throttle" and c[2] == "gate":
+                                    whose = "outer-gate"
+                except Exception:
+                    pass
+                hits.append(hit("C04/nested-submit-blocks:lock-held-by-sleeper:%s" % whose, "a submit() issued from inside %s (thread %s) "
+                                "blocks for ever on lock %s (%s) while %r keep re-arming a timed wait (layers %r, base %s)"
+                                % (pend[tid], name, park[1], whose, sleepers, [l[0] for l in desc["layers"]], desc["base"])))
     if s.end_reason == "idle" and not ctx.completed:
-        pend = {}
-        for e in s.log:
-            if e[1] == "call" and e[2] == "nsubmit":
-                pend[e[0]] = e[3]
-            elif e[1] in ("ret", "raise") and e[2] == "nsubmit":
-                pend.pop(e[0], None)
-        for (tid, park, role, name) in s.parked():
+        for (tid, park, role, name) in parked:
             if tid in pend and park and park[0] == "lock":
                 sig = "C04/nested-submit-blocks:%s" % desc["base"]
-                if desc["base"] in ("libsync", "simsync") and any(l[0] == "retry" for l in desc["layers"]):
+                if inline_base and has_retry and role == "lib" and str(name).startswith("RetryExecutor"):
                     sig = "C04/deadlock:nested-submit:retry-over-inline-delegate"
                 hits.append(hit(sig, "a submit() issued from inside %s blocks for ever on lock %s "
                                 "(layers %r, base %s)" % (pend[tid], park[1], [l[0] for l in desc["layers"]], desc["base"])))
